@@ -84,6 +84,7 @@ class Class:
     bases: List[str] = field(default_factory=list)   # resolved qualnames
     methods: Dict[str, Function] = field(default_factory=dict)
     members: Dict[str, ast.AST] = field(default_factory=dict)  # class attrs
+    setters: Dict[str, Function] = field(default_factory=dict)  # @x.setter
 
     def __repr__(self):
         return f"<Class {self.qualname}>"
@@ -186,8 +187,19 @@ class Program:
             c = Class(f"{m.name}.{node.name}", node.name, node, m)
             for sub in node.body:
                 if isinstance(sub, (ast.FunctionDef, ast.AsyncFunctionDef)):
+                    decs = _dec_names(sub)
+                    if "setter" in decs or "deleter" in decs:
+                        # @name.setter / @name.deleter: kept apart, the
+                        # method of that name stays the property getter
+                        kind = "setter" if "setter" in decs else "deleter"
+                        f = Function(f"{c.qualname}.{sub.name}.{kind}",
+                                     sub.name, sub, m, c, decs)
+                        if kind == "setter":
+                            c.setters[sub.name] = f
+                        self.functions[f.qualname] = f
+                        continue
                     f = Function(f"{c.qualname}.{sub.name}", sub.name, sub, m,
-                                 c, _dec_names(sub))
+                                 c, decs)
                     c.methods[sub.name] = f
                     self.functions[f.qualname] = f
                 elif isinstance(sub, ast.Assign):
